@@ -58,7 +58,7 @@ def pair_case(draw):
     u1 = draw(st.one_of(S.instant_near_transition(z1), S.uniform_instant()))
     m = draw(st.integers(0, 5))
     if m <= 1:
-        u2 = u1 + draw(st.integers(-3 * 86400 * US, 3 * 86400 * US))
+        u2 = u1 + draw(S.uni(-3 * 86400 * US, 3 * 86400 * US))
     elif m == 2:
         # straddle / sit inside the same transition region
         tr = T.near_transition(u1, z1)
@@ -142,7 +142,7 @@ class NaiveDate(Sub):
 
     def strategy(self, ctx):
         return st.fixed_dictionaries({"kind": st.sampled_from(["naive", "date", "fixed"]), "w1": S.uniform_instant(),
-                                      "w2": S.uniform_instant() | st.integers(-5 * 86400 * US, 5 * 86400 * US),
+                                      "w2": S.uniform_instant() | S.uni(-5 * 86400 * US, 5 * 86400 * US),
                                       "o1": S.fixed_offset_seconds(), "o2": S.fixed_offset_seconds(), "rel": st.booleans()})
 
     def check(self, case, ctx):
